@@ -6,6 +6,7 @@ package wiremodel
 import (
 	"errors"
 	"fmt"
+	"net"
 	"strings"
 )
 
@@ -240,6 +241,8 @@ func libName(n Name) string {
 			case k == 2 && !isDigit(b) && b > ' ' && b < 0x7f:
 				sb.WriteByte('\\')
 				sb.WriteByte(b)
+			case k == 3 && b >= 0x80:
+				sb.WriteByte(b) // a raw 8-bit octet, as in a name typed as UTF-8 or Latin-1 text
 			default:
 				sb.WriteString(EscLabel([]byte{b}))
 			}
@@ -247,4 +250,33 @@ func libName(n Name) string {
 		sb.WriteByte('.')
 	}
 	return sb.String()
+}
+
+// libIP4 is an IPv4 address for a library field: 4 octets, or (under a Spelling) the 16-octet
+// IPv4-in-IPv6 form that net.ParseIP and net.IPv4 return - both are the same address to the library.
+func libIP4(b []byte) net.IP {
+	ip := make(net.IP, 4)
+	copy(ip, b)
+	if spellSeed == 0 {
+		return ip
+	}
+	spellCtr++
+	if mix(spellSeed^mix(spellCtr))&3 != 0 {
+		return ip
+	}
+	return net.IPv4(ip[0], ip[1], ip[2], ip[3])
+}
+
+// libRelName is a name for a field to which the library itself applies Fqdn (the REPORTING agent
+// domain): under a Spelling it is sometimes written without the final dot.
+func libRelName(n Name) string {
+	s := libName(n)
+	if spellSeed == 0 || len(n) == 0 {
+		return s
+	}
+	spellCtr++
+	if mix(spellSeed^mix(spellCtr))&1 == 0 {
+		return s
+	}
+	return strings.TrimSuffix(s, ".")
 }
